@@ -31,6 +31,9 @@ def run_standard(mod, ctx):
     ctx.obligations = [{"theorem": t, "axioms": ax[t]} for t in mod.THEOREMS]
     ctx.discharged = len(ctx.obligations)
     ctx.log("lean build ok, %d theorems audited" % len(ax))
+    tieb = vcore.tie_b_tables(ctx, mod.TABLES) if getattr(mod, "TABLES", None) else []
+    if getattr(mod, "TABLES", None):
+        ctx.log("Tie B: %d table obligations regenerated from the source, %d failed" % (len(mod.TABLES), len(tieb)))
     rng = random.Random(ctx.seed)
     cfgs = mod.configs(ctx.tier)
     if hasattr(mod, "gen"):
@@ -76,6 +79,10 @@ def run_standard(mod, ctx):
             ctx.log("config %s/%s/%s: %d ops compared, violations so far %d" % (cfg[0], cfg[1] or "none", cfg[2], len(lines), len(ctx.violations)))
     if hasattr(mod, "extra"):
         mod.extra(ctx, rng)
+    for (name, log) in tieb:
+        # the table in the source is no longer the table the theorems are about; the correspondence above was the search for a concrete failing input
+        vcore.report(ctx, "tieB:table", {"theorem": "Sodium.Generated." + name, "what": "a constant table regenerated from /repo's source differs from the model's table (kernel obligation failed)",
+                                         "log": log[-1200:], "concrete_inputs": "see the other replay files of this run" if ctx.violations else None}, no_input=not ctx.violations)
     vcore.write_evidence(ctx, mod.LEVEL, mod.RULE, getattr(mod, "evidence_extra", lambda c: None)(ctx),
                          getattr(mod, "ASSUMPTIONS", []))
 
